@@ -677,6 +677,29 @@ def _reads_fallback(name: str) -> str:
             '    project := "target_sampling_mask", lossK := "kspace", lossImage := "target" }\n')
 
 
+def _engine_kpath(cls: str, name: str) -> str:
+    """the k-space path of the training step, in source order: complement mask on the prediction, data consistency,
+    projection on the target mask"""
+    fn = find_function(parse_file(REPO / SSLENG), f"{cls}._do_iteration")
+    steps = []
+    for st in all_stmts(fn):
+        if isinstance(st, ast.Assign) and len(st.targets) == 1 and ast.unparse(st.targets[0]) == "output_kspace":
+            v = st.value
+            if isinstance(v, ast.Call) and ast.unparse(v.func) == "T.apply_mask" and len(v.args) >= 2:
+                steps.append(f"mask:{_txt(v.args[0])}:{_txt(v.args[1])}")
+            elif isinstance(v, ast.Call) and ast.unparse(v.func) == "self._forward_operator" and len(v.args) == 3:
+                steps.append(f"forward:{_txt(v.args[2])}")
+            elif isinstance(v, ast.Call) and ast.unparse(v.func) == "T.apply_padding" and v.args:
+                steps.append(f"dc:{_txt(v.args[0])}")
+            else:
+                raise Untranslatable(f"assignment `output_kspace = {ast.unparse(v)[:50]}`")
+    return (f"/-- translated from `{cls}._do_iteration`: every assignment to `output_kspace`, in order -/\n"
+            f"def {name} : List String := {_lstr(steps)}\n")
+
+
+_KPATH = ["forward:~mask", "mask:output_kspace:~mask", "dc:kspace+output_kspace", "mask:output_kspace:data['target_sampling_mask']"]
+
+
 def _c11_extra():
     chunks, status = [], {}
 
@@ -725,6 +748,10 @@ def _c11_extra():
     attempt("ssl_engine_reads", lambda: _engine_reads("SSLMRIModelEngine", "ssl_engine_reads"), _reads_fallback("ssl_engine_reads"))
     attempt("jssl_engine_reads", lambda: _engine_reads("JSSLMRIModelEngine", "jssl_engine_reads"),
             _reads_fallback("jssl_engine_reads"))
+    attempt("ssl_engine_kpath", lambda: _engine_kpath("SSLMRIModelEngine", "ssl_engine_kpath"),
+            "def ssl_engine_kpath : List String := " + _lstr(_KPATH) + "\n")
+    attempt("jssl_engine_kpath", lambda: _engine_kpath("JSSLMRIModelEngine", "jssl_engine_kpath"),
+            "def jssl_engine_kpath : List String := " + _lstr(_KPATH) + "\n")
     attempt("seeds", lambda: _seeds(tree if tree is not None else need("x")), _SEED_FALLBACK)
     return "\n".join(chunks), status
 
